@@ -10,29 +10,59 @@ OPS = {ast.Eq: '==', ast.NotEq: '!=', ast.Lt: '<', ast.LtE: '<=',
        ast.Is: 'is', ast.IsNot: 'is not'}
 
 
-def signature(d, e, expand=True):
-    """Canonical shape of a decision formula: boolean skeleton, polarity,
-    comparison operators, and per-atom dependence leaves."""
+_NEG = {'==': '!=', '!=': '==', '<': '>=', '>=': '<', '>': '<=', '<=': '>',
+        'in': 'not in', 'not in': 'in', 'is': 'is not', 'is not': 'is'}
+_SWAP = {'<': '>', '<=': '>='}
+
+
+def signature(d, e, expand=True, neg=False):
+    """Canonical shape of a decision formula: boolean skeleton in negation
+    normal form (De Morgan applied, `not (a < b)` read as `a >= b`),
+    comparisons written with > / >= (`a < b` is `b > a`), `len(x) > 0` read
+    as the truthiness of x, and per-atom dependence leaves."""
     if isinstance(e, ast.BoolOp):
         op = 'and' if isinstance(e.op, ast.And) else 'or'
+        if neg:
+            op = 'or' if op == 'and' else 'and'
         kids = []
         for v in e.values:
-            k = signature(d, v, expand)
+            k = signature(d, v, expand, neg)
             if k[0] == op:
                 kids.extend(k[1])
             else:
                 kids.append(k)
         return (op, tuple(sorted(kids, key=repr)))
     if isinstance(e, ast.UnaryOp) and isinstance(e.op, ast.Not):
-        return ('not', signature(d, e.operand, expand))
+        return signature(d, e.operand, expand, not neg)
     if isinstance(e, ast.Compare) and len(e.ops) == 1:
-        lft = tuple(sorted(d.leaves(e.left, at=e, with_control=False)))
-        rgt_e = e.comparators[0]
-        if isinstance(rgt_e, ast.Constant):
-            rgt = ('const', rgt_e.value)
+        op = OPS.get(type(e.ops[0]), '?')
+        if neg and op in _NEG:
+            op, neg = _NEG[op], False
+        a, b = e.left, e.comparators[0]
+        if op in _SWAP:
+            op, a, b = _SWAP[op], b, a
+        # len(x) > 0 / len(x) != 0 / len(x) >= 1: x is not empty
+        if isinstance(a, ast.Call) and isinstance(a.func, ast.Name) and \
+                a.func.id == 'len' and isinstance(b, ast.Constant):
+            nonempty = {('>', 0): True, ('!=', 0): True, ('>=', 1): True,
+                        ('==', 0): False}.get((op, b.value))
+            if nonempty is not None:
+                at = ('atom', tuple(sorted(d.leaves(a, at=e,
+                                                    with_control=False))))
+                return at if nonempty != neg else ('not', at)
+        lft = tuple(sorted(d.leaves(a, at=e, with_control=False)))
+        if isinstance(b, ast.Constant):
+            rgt = ('const', b.value)
+        elif isinstance(a, ast.Constant):
+            lft, rgt = ('const', a.value), tuple(sorted(
+                d.leaves(b, at=e, with_control=False)))
         else:
-            rgt = tuple(sorted(d.leaves(rgt_e, at=e, with_control=False)))
-        return ('cmp', lft, OPS.get(type(e.ops[0]), '?'), rgt)
+            rgt = tuple(sorted(d.leaves(b, at=e, with_control=False)))
+        if op in ('==', '!=') and repr(lft) > repr(rgt) and \
+                not (isinstance(rgt, tuple) and rgt[:1] == ('const',)):
+            lft, rgt = rgt, lft
+        out = ('cmp', lft, op, rgt)
+        return ('not', out) if neg else out
     if expand and isinstance(e, ast.Name):
         use = d._use_ids(e)
         reaching = [(st, vals) for st, vals in d.defs().get(e.id, [])
@@ -40,8 +70,9 @@ def signature(d, e, expand=True):
         if len(reaching) == 1 and isinstance(reaching[0][0], ast.Assign) \
                 and isinstance(reaching[0][1][0], (ast.BoolOp, ast.UnaryOp,
                                                    ast.Compare)):
-            return signature(d, reaching[0][1][0], expand)
-    return ('atom', tuple(sorted(d.leaves(e, at=e, with_control=False))))
+            return signature(d, reaching[0][1][0], expand, neg)
+    at = ('atom', tuple(sorted(d.leaves(e, at=e, with_control=False))))
+    return ('not', at) if neg else at
 
 
 from ..rules import (GWF, EXC, mpt, need_func, raise_class,  # noqa: E402
@@ -80,7 +111,7 @@ RAISE_GUARD = (
        'pull_request.get_approvals()', 'settings.approve',
        'settings.required_peer_approvals'),
       '>', ('const', 0)),
-     ('cmp', ('pull_request.get_change_requests()',), '>', ('const', 0)),
+     ('atom', ('pull_request.get_change_requests()',)),
      ('not', ('atom', ('bypass_author_approval()', 'pull_request.author',
                        'pull_request.get_approvals()', 'settings.approve',
                        'settings.need_author_approval')))))
@@ -115,6 +146,16 @@ def gate(prog, an, rep):
     for tq in (GWF + '.queueing.add_to_queue',
                GWF + '.integration.merge_integration_branches'):
         mpt(an, rep, 'C04.MPT.approval-gate', f, Spec.func(tq), [g], depth=2)
+
+
+def _norm(sig):
+    """Children of and/or in one fixed order (the comparison of two
+    formulas must not depend on how they were written down)."""
+    if sig[0] in ('and', 'or'):
+        return (sig[0], tuple(sorted((_norm(k) for k in sig[1]), key=repr)))
+    if sig[0] == 'not':
+        return ('not', _norm(sig[1]))
+    return sig
 
 
 def describe(sig, indent=0):
@@ -180,7 +221,7 @@ def formulas(prog, an, rep):
               'the approval decision now also depends on %s' % extra)
     sig = signature(d, rg.test)
     rep.evaluated()
-    rep.check(sig == RAISE_GUARD, 'C04.DEP.raise-formula', f.qname +
+    rep.check(_norm(sig) == _norm(RAISE_GUARD), 'C04.DEP.raise-formula', f.qname +
               ': raise guard formula (terms, polarity, operators, per-term '
               'inputs)', f.where(rg), 'raise guard changed: %s' %
               '; '.join(diff_sig(sig, RAISE_GUARD)), detail=repr(sig))
@@ -193,7 +234,7 @@ def formulas(prog, an, rep):
     for r in rets[:1]:
         sig = signature(d, r.test)
         rep.evaluated()
-        rep.check(sig == EARLY_RETURN, 'C04.DEP.early-return-formula',
+        rep.check(_norm(sig) == _norm(EARLY_RETURN), 'C04.DEP.early-return-formula',
                   f.qname + ': early-return formula', f.where(r),
                   'early-return shortcut changed: %s' %
                   '; '.join(diff_sig(sig, EARLY_RETURN)), detail=repr(sig))
